@@ -5,6 +5,7 @@ from ..translate import labelfns as tr
 from ..translate import hashmapsrc as hmsrc
 from ..translate import hashmapglue as hmglue
 from . import C09
+from . import c10_embed
 
 SPEC = dict(
     manifest=dict(
@@ -21,6 +22,9 @@ SPEC = dict(
              'accepted patterns are exactly the spec encodings (c10_label_accepted_iff) - so a cell whose label announces more bits than remain '
              'makes every parser entry point raise, at the root, below forks, and a parse that returns has met only fitting labels at every '
              'depth (c10_label_too_long_rejected, c10_label_too_long_below_fork, c10_parse_labels_fit); a negative key length is refused. '
+             'A dictionary that is a FIELD of a larger constructor: an inline Hashmap whose fork root shares its cell with ANY further bits and references is decoded to the same leaves '
+             '(c10_parse_embedded; HashmapE: load_dict / preload_dict on `1 ^root ...` = HashMap.parse(root) whatever follows) and the regenerated parse_hashmap leaves the caller\'s slice '
+             'exactly behind it - label bits and two references consumed, nothing else (c10_src_parse_embedded). '
              'SOURCE TIE: every function of parse.py and utils.py is regenerated as a Lean function on every run (Generated/HashmapSrc.lean, translator pyrec.py) and validated '
              'against the running library; Lean proves FOR ALL INPUTS (every slice, int key length, dict, prefix, decoder pair; every recursion fuel >= 2*key_length+2) that the regenerated '
              'deserialize_unary / deserialize_hml / parse / deserialize_hashmap_node / parse_aug / deserialize_hashmap_aug_node / parse_hashmap equal the hand model '
@@ -46,6 +50,11 @@ SPEC = dict(
          'parse_hashmap, HashMap.parse, from_cell, load_dict, load_hashmap, parse_hashmap_aug, load_hashmap_aug, load_hashmap_aug_e; '
          '(c) cells whose edge label (hml_short / hml_long / hml_same) announces more bits than the key has left, as the root edge or below 1-4 '
          'well-formed forks, key lengths 1..256, plain and augmented: all 7 entry points must raise and the model must answer err; '
+         '(d) dictionaries as FIELDS (c10_embed.py, gen/dictfields.py): a cell = sequence of bit fields, ^Cell fields and dictionaries (inline Hashmap / '
+         'HashmapAug, HashmapE / HashmapAugE; whole, empty, pruned at every edge in turn incl. the root reference itself) with 0..2 references and 0..61 bits '
+         'before and after each, 1-4 dictionaries per cell, read field by field from ONE slice through every entry point (load_dict, preload_dict+load_dict, '
+         'load_bit/load_ref + HashMap.parse / parse_hashmap, load_hashmap, HashMap.parse(slice), parse_hashmap(slice), load_hashmap_aug, parse_hashmap_aug, '
+         'load_hashmap_aug_e; with and without value deserialisers): result = leaves of the non-pruned part, slice exactly behind the dictionary, following fields read back; '
          'distinct = distinct (tree, constructors, prunings); non-trivial = at least one leaf',
     trusted_base=['Spec/Hashmap.lean transcribes hashmap.tlb + dict.cpp label choice', 'Model/Hashmap.lean mirrors utils.py/parse.py by hand',
                   'harness/translate/labelfns.py', 'harness/translate/pyrec.py + hashmapsrc.py (declared interface) + lean/TonVerif/PyHm.lean', 'harness/gen/maps.py: independent reference serialiser and tree encoder'],
@@ -536,6 +545,7 @@ def src_search(ctx):
 def run(ctx):
     if ctx.search and src_search(ctx):
         return
+    c10_embed.embed_cases(ctx)      # dictionaries as FIELDS of a larger constructor (bits / references before and after, prunings)
     label_cases(ctx)
     tree_cases(ctx)
     overlong_cases(ctx)
@@ -564,6 +574,8 @@ def replay(ctx, payload):
             ctx.fail('label-reader:wrong', 'deserialize_hml does not return the label hashmap.tlb denotes', inp, got, want)
     elif inp.get('kind') == 'auge':
         auge_case(ctx, inp['bits'], [_tupled(c) for c in inp['cells']], inp['n'], inp.get('tag', 'replay'))
+    elif inp.get('kind') == 'embed':
+        c10_embed.replay_case(ctx, inp)
     elif inp.get('kind') == 'overlong':
         overlong_case(ctx, inp['n'], inp['ctor'], inp['length'], [tuple(p) for p in inp['path']], inp['ybits'], inp['seed_bits'], inp.get('tag', 'replay'))
 
